@@ -64,12 +64,12 @@ def shards(tier, seed):
         for j in range(k):
             n = (400 if layout == "event" else 110) if quick else (6000 if layout == "event" else 2500)
             out.append({"name": f"valid-{layout}-{j}", "kind": "valid", "layout": layout, "k": j, "n": n,
-                        "budget_s": 300 if quick else 1500})
+                        "budget_s": 200 if quick else 840})
     for layout, k in plan:
         for j in range(k):
             n = 260 if quick else 9000
             out.append({"name": f"malformed-{layout}-{j}", "kind": "malformed", "layout": layout, "k": j, "n": n,
-                        "budget_s": 300 if quick else 1500})
+                        "budget_s": 200 if quick else 840})
     return out
 
 
